@@ -1,4 +1,5 @@
 import Refine.Model.CellTopo
+import Refine.Lemmas.GeomReal
 
 /-!
   C15 (table part): the per-cell-type edge and face tables describe a closed,
@@ -37,5 +38,399 @@ theorem tet_face_opposite :
     (List.range 4).all (fun i => match tet.f2n[i]? with
       | some f => !(faceNodes f).contains i && (faceNodes f).length == 3
       | none => false) = true := by decide
+
+
+/-! ## Geometric measures (L4 Geom), exact real arithmetic.
+    The model functions are the ones bit-compared with the C (`Drivers/Geom.lean`, stream `geom_*`);
+    rounding is modelled, not verified. -/
+section Measures
+open Refine Refine.Model.Geom Refine.ScalarReal Refine.GeomReal
+
+/-- the coded formula is the signed determinant `det[b-a, c-a, d-a] / 6` -/
+theorem tetVol_eq_det (a b c d : V3 ℝ) :
+    tetVol a b c d =
+      ((b.x - a.x) * ((c.y - a.y) * (d.z - a.z) - (c.z - a.z) * (d.y - a.y))
+     - (b.y - a.y) * ((c.x - a.x) * (d.z - a.z) - (c.z - a.z) * (d.x - a.x))
+     + (b.z - a.z) * ((c.x - a.x) * (d.y - a.y) - (c.y - a.y) * (d.x - a.x))) / 6 := by
+  simp only [tetVol, add_eq, sub_eq, mul_eq, div_eq, neg_eq, ofInt_eq]
+  push_cast; ring
+
+/-- `ref_node_bary4`'s sub-determinant is `-6 ×` the volume -/
+theorem tetDet_eq (a b c d : V3 ℝ) : tetDet a b c d = -6 * tetVol a b c d := by
+  simp only [tetDet, tetVol, add_eq, sub_eq, mul_eq, div_eq, neg_eq, ofInt_eq]
+  push_cast; ring
+
+/-- odd permutations of the vertices negate the volume -/
+theorem tetVol_swap01 (a b c d : V3 ℝ) : tetVol b a c d = - tetVol a b c d := by
+  simp only [tetVol, add_eq, sub_eq, mul_eq, div_eq, neg_eq, ofInt_eq]; push_cast; ring
+theorem tetVol_swap12 (a b c d : V3 ℝ) : tetVol a c b d = - tetVol a b c d := by
+  simp only [tetVol, add_eq, sub_eq, mul_eq, div_eq, neg_eq, ofInt_eq]; push_cast; ring
+theorem tetVol_swap23 (a b c d : V3 ℝ) : tetVol a b d c = - tetVol a b c d := by
+  simp only [tetVol, add_eq, sub_eq, mul_eq, div_eq, neg_eq, ofInt_eq]; push_cast; ring
+theorem tetVol_swap02 (a b c d : V3 ℝ) : tetVol c b a d = - tetVol a b c d := by
+  simp only [tetVol, add_eq, sub_eq, mul_eq, div_eq, neg_eq, ofInt_eq]; push_cast; ring
+theorem tetVol_swap03 (a b c d : V3 ℝ) : tetVol d b c a = - tetVol a b c d := by
+  simp only [tetVol, add_eq, sub_eq, mul_eq, div_eq, neg_eq, ofInt_eq]; push_cast; ring
+theorem tetVol_swap13 (a b c d : V3 ℝ) : tetVol a d c b = - tetVol a b c d := by
+  simp only [tetVol, add_eq, sub_eq, mul_eq, div_eq, neg_eq, ofInt_eq]; push_cast; ring
+
+/-- even permutations (the 3-cycles generate them) fix the volume -/
+theorem tetVol_cycle012 (a b c d : V3 ℝ) : tetVol b c a d = tetVol a b c d := by
+  simp only [tetVol, add_eq, sub_eq, mul_eq, div_eq, neg_eq, ofInt_eq]; push_cast; ring
+theorem tetVol_cycle123 (a b c d : V3 ℝ) : tetVol a c d b = tetVol a b c d := by
+  simp only [tetVol, add_eq, sub_eq, mul_eq, div_eq, neg_eq, ofInt_eq]; push_cast; ring
+theorem tetVol_double_swap (a b c d : V3 ℝ) : tetVol b a d c = tetVol a b c d := by
+  simp only [tetVol, add_eq, sub_eq, mul_eq, div_eq, neg_eq, ofInt_eq]; push_cast; ring
+
+/-- a repeated vertex gives zero volume (flat cell) -/
+theorem tetVol_degenerate (a c d : V3 ℝ) : tetVol a a c d = 0 := by
+  simp only [tetVol, add_eq, sub_eq, mul_eq, div_eq, neg_eq, ofInt_eq]; push_cast; ring
+
+/-- the cone identity behind cavity volume conservation: for every apex `p` the four faces of the
+    tet (rows of `tet.f2n`) coned to `p` sum to the tet -/
+theorem tetVol_cone4 (a b c d p : V3 ℝ) :
+    tetVol a b c d = tetVol p b c d + tetVol a p c d + tetVol a b p d + tetVol a b c p := by
+  simp only [tetVol, add_eq, sub_eq, mul_eq, div_eq, neg_eq, ofInt_eq]; push_cast; ring
+
+/-- volume is affine in vertex 0: the coded derivative `ref_node_tet_dvol_dnode0` is EXACTLY the
+    finite difference, for every displacement `δ` (no limit involved) -/
+theorem tetVol_affine0 (a b c d δ : V3 ℝ) :
+    tetVol (vadd a δ) b c d = tetVol a b c d + vdot (tetDvolDnode0 a b c d).2 δ := by
+  simp only [tetDvolDnode0, tetVol, vadd, vdot, add_eq, sub_eq, mul_eq, div_eq, neg_eq, ofInt_eq, lit6_eq]
+  push_cast; ring
+
+/-- … and its value component is the volume -/
+theorem tetDvol_value (a b c d : V3 ℝ) : (tetDvolDnode0 a b c d).1 = tetVol a b c d := rfl
+
+/-- splitting an edge `a–b` at `m = (1-t)a + t b` splits the volume in the same ratio -/
+theorem tetVol_split (a b c d : V3 ℝ) (t : ℝ) :
+    tetVol (vadd (vsmul (1 - t) a) (vsmul t b)) b c d = (1 - t) * tetVol a b c d ∧
+    tetVol a (vadd (vsmul (1 - t) a) (vsmul t b)) c d = t * tetVol a b c d := by
+  constructor <;>
+  · simp only [tetVol, vadd, vsmul, add_eq, sub_eq, mul_eq, div_eq, neg_eq, ofInt_eq]; push_cast; ring
+
+/-- triangle normal: swapping two vertices negates it, cyclic shifts fix it -/
+theorem triNormal_swap12 (a b c : V3 ℝ) : triNormal a c b = vsmul (-1) (triNormal a b c) := by
+  simp only [triNormal, cross, V3.sub, vsmul, sub_eq, mul_eq]
+  ext <;> ring
+theorem triNormal_swap01 (a b c : V3 ℝ) : triNormal b a c = vsmul (-1) (triNormal a b c) := by
+  simp only [triNormal, cross, V3.sub, vsmul, sub_eq, mul_eq]
+  ext <;> ring
+theorem triNormal_cycle (a b c : V3 ℝ) : triNormal b c a = triNormal a b c := by
+  simp only [triNormal, cross, V3.sub, sub_eq, mul_eq]
+  ext <;> ring
+
+/-- the area is `|n|/2`, non-negative and invariant under every permutation of the vertices -/
+theorem triArea_eq (a b c : V3 ℝ) :
+    triArea a b c = Real.sqrt (vdot (triNormal a b c) (triNormal a b c)) / 2 := by
+  simp only [triArea, dot_eq, mul_eq, sqrt_eq, half_eq]; ring
+theorem triArea_nonneg (a b c : V3 ℝ) : 0 ≤ triArea a b c := by
+  rw [triArea_eq]; positivity
+theorem triArea_swap12 (a b c : V3 ℝ) : triArea a c b = triArea a b c := by
+  rw [triArea_eq, triArea_eq, triNormal_swap12]; simp only [vdot, vsmul]; ring_nf
+theorem triArea_swap01 (a b c : V3 ℝ) : triArea b a c = triArea a b c := by
+  rw [triArea_eq, triArea_eq, triNormal_swap01]; simp only [vdot, vsmul]; ring_nf
+theorem triArea_cycle (a b c : V3 ℝ) : triArea b c a = triArea a b c := by
+  rw [triArea_eq, triArea_eq, triNormal_cycle]
+
+/-- 2-D orientation flips with the vertex order (strictly: not both orders are valid) -/
+theorem triTwodOrientation_swap (a b c : V3 ℝ) :
+    triTwodOrientation a b c = true → triTwodOrientation a c b = false := by
+  unfold triTwodOrientation
+  rw [triNormal_swap12 a b c]
+  simp only [lit0_eq, lt_iff, vsmul]
+  intro h
+  rw [Bool.eq_false_iff]; simp only [ne_eq, lt_iff]; linarith
+
+
+/-! ### quadratic form `vᵀ M v` and its coded derivatives -/
+
+/-- exact second-order expansion: the coded derivative `ref_matrix_vt_m_v_deriv` is the linear term -/
+theorem vtMv_expand (M : M6 ℝ) (v δ : V3 ℝ) :
+    vtMv M (vadd v δ) = vtMv M v + vdot (vtMvDeriv M v).2 δ + vtMv M δ := by
+  simp only [vtMv, vtMvDeriv, vadd, vdot, add_eq, mul_eq]; ring
+
+theorem vtMvDeriv_value (M : M6 ℝ) (v : V3 ℝ) : (vtMvDeriv M v).1 = vtMv M v := rfl
+theorem sqrtVtMvDeriv_value (M : M6 ℝ) (v : V3 ℝ) : (sqrtVtMvDeriv M v).1 = sqrtVtMv M v := rfl
+
+/-- `sqrtVtMv² = vtMv` on the non-negative cone -/
+theorem sqrtVtMv_sq (M : M6 ℝ) (v : V3 ℝ) (h : 0 ≤ vtMv M v) : sqrtVtMv M v * sqrtVtMv M v = vtMv M v := by
+  simp only [sqrtVtMv, sqrt_eq]; exact Real.mul_self_sqrt h
+
+/-- chain rule, exactly as coded: `2·√(vᵀMv) · d(√(vᵀMv)) = d(vᵀMv)` whenever the length is non-zero -/
+theorem sqrtVtMv_chain (M : M6 ℝ) (v : V3 ℝ) (h : sqrtVtMv M v ≠ 0) :
+    vsmul (2 * sqrtVtMv M v) (sqrtVtMvDeriv M v).2 = (vtMvDeriv M v).2 := by
+  simp only [sqrtVtMv, sqrt_eq] at h
+  simp only [sqrtVtMvDeriv, vtMvDeriv, sqrtVtMv, vsmul, add_eq, mul_eq, div_eq, sqrt_eq, half_eq]
+  ext <;> (simp only []; field_simp; ring)
+
+/-! ### barycentric coordinates -/
+
+/-- `ref_node_bary4`, success branch: the weights sum to one … -/
+theorem bary4_sum {a b c d p : V3 ℝ} {w : B4 ℝ} (h : bary4 a b c d p = (St.ok, w)) :
+    w.b0 + w.b1 + w.b2 + w.b3 = 1 := by
+  unfold bary4 at h
+  simp only [] at h
+  split at h
+  · rename_i hg
+    simp only [Bool.and_eq_true] at hg
+    have ht := divisible_ne_zero hg.2
+    simp only [Prod.mk.injEq, true_and] at h
+    subst h
+    simp only [add_eq, div_eq] at ht ⊢
+    field_simp
+  · simp at h
+
+/-- … and reproduce the query point: `Σ wᵢ xᵢ = p` (inside or outside the tet) -/
+theorem bary4_reproduce {a b c d p : V3 ℝ} {w : B4 ℝ} (h : bary4 a b c d p = (St.ok, w)) :
+    vadd (vadd (vadd (vsmul w.b0 a) (vsmul w.b1 b)) (vsmul w.b2 c)) (vsmul w.b3 d) = p := by
+  unfold bary4 at h
+  simp only [] at h
+  split at h
+  · rename_i hg
+    simp only [Bool.and_eq_true] at hg
+    have ht := divisible_ne_zero hg.2
+    simp only [Prod.mk.injEq, true_and] at h
+    subst h
+    obtain ⟨kx, ky, kz⟩ := bary4_mom a b c d p
+    simp only [add_eq, div_eq] at ht ⊢
+    ext <;> simp only [vadd, vsmul]
+    · exact wsum4 _ _ _ _ _ _ _ _ _ _ ht kx
+    · exact wsum4 _ _ _ _ _ _ _ _ _ _ ht ky
+    · exact wsum4 _ _ _ _ _ _ _ _ _ _ ht kz
+  · simp at h
+
+/-- the success guard implies a non-flat tet -/
+theorem bary4_ok_vol_ne_zero {a b c d p : V3 ℝ} {w : B4 ℝ} (h : bary4 a b c d p = (St.ok, w)) :
+    tetVol a b c d ≠ 0 := by
+  unfold bary4 at h
+  simp only [] at h
+  split at h
+  · rename_i hg
+    simp only [Bool.and_eq_true] at hg
+    have ht := divisible_ne_zero hg.2
+    intro hv
+    apply ht
+    have := tetVol_cone4 a b c d p
+    simp only [add_eq, tetDet_eq]
+    linarith
+  · simp at h
+
+/-- `ref_node_bary4`, `REF_DIV_ZERO` branch: what the C returns is `-1` at one vertex, `0` elsewhere
+    (a walking direction, NOT a point of the simplex) -/
+theorem bary4_divZero {a b c d p : V3 ℝ} {w : B4 ℝ} (h : bary4 a b c d p = (St.divZero, w)) :
+    w = ⟨-1, 0, 0, 0⟩ ∨ w = ⟨0, -1, 0, 0⟩ ∨ w = ⟨0, 0, -1, 0⟩ ∨ w = ⟨0, 0, 0, -1⟩ := by
+  unfold bary4 at h
+  simp only [] at h
+  split at h
+  · simp at h
+  · simp only [Prod.mk.injEq, true_and] at h
+    subst h
+    simp only [lit0_eq, ofInt_eq, Int.reduceNeg, Int.cast_neg, Int.cast_one]
+    split_ifs <;> simp_all
+
+/-- `ref_node_bary3` (2-D, uses x and y only): weights sum to one … -/
+theorem bary3_sum {x0 x1 x2 p : V3 ℝ} {w : B3 ℝ} (h : bary3 x0 x1 x2 p = (St.ok, w)) :
+    w.b0 + w.b1 + w.b2 = 1 := by
+  unfold bary3 at h
+  simp only [] at h
+  split at h
+  · rename_i hg
+    simp only [Bool.and_eq_true] at hg
+    have ht := divisible_ne_zero hg.2
+    simp only [Prod.mk.injEq, true_and] at h
+    subst h
+    simp only [add_eq, div_eq] at ht ⊢
+    field_simp
+  · simp at h
+
+/-- … and reproduce the query point in the plane (its z is ignored by the C) -/
+theorem bary3_reproduce {x0 x1 x2 p : V3 ℝ} {w : B3 ℝ} (h : bary3 x0 x1 x2 p = (St.ok, w)) :
+    w.b0 * x0.x + w.b1 * x1.x + w.b2 * x2.x = p.x ∧ w.b0 * x0.y + w.b1 * x1.y + w.b2 * x2.y = p.y := by
+  unfold bary3 at h
+  simp only [] at h
+  split at h
+  · rename_i hg
+    simp only [Bool.and_eq_true] at hg
+    have ht := divisible_ne_zero hg.2
+    simp only [Prod.mk.injEq, true_and] at h
+    subst h
+    simp only [add_eq, div_eq] at ht ⊢
+    constructor
+    · apply wsum3 _ _ _ _ _ _ _ _ ht
+      simp only [triNormal, cross, V3.sub, sub_eq, mul_eq]; ring
+    · apply wsum3 _ _ _ _ _ _ _ _ ht
+      simp only [triNormal, cross, V3.sub, sub_eq, mul_eq]; ring
+  · simp at h
+
+/-- `ref_node_bary3` / `bary3d`, `REF_DIV_ZERO` branch: all-zero weights -/
+theorem bary3_divZero {x0 x1 x2 p : V3 ℝ} {w : B3 ℝ} (h : bary3 x0 x1 x2 p = (St.divZero, w)) :
+    w = ⟨0, 0, 0⟩ := by
+  unfold bary3 at h
+  simp only [] at h
+  split at h
+  · simp at h
+  · simp only [Prod.mk.injEq, true_and, lit0_eq] at h
+    exact h.symm
+
+/-- the raw `bary3d` weights do not change when the query point moves along the triangle normal by
+    ANY amount … -/
+theorem bary3dRaw_shift (x0 x1 x2 q : V3 ℝ) (s : ℝ) :
+    bary3dRaw x0 x1 x2 (vadd q (vsmul s (triNormal x0 x1 x2))) = bary3dRaw x0 x1 x2 q := by
+  simp only [bary3dRaw, triNormal, cross, dot, V3.sub, vadd, vsmul, add_eq, sub_eq, mul_eq]
+  congr 1 <;> ring
+
+/-- … so "projecting" with the UN-normalised normal, as `ref_node_bary3d` does (it subtracts
+    `n·((p-x0)·n)` instead of `n·((p-x0)·n)/(n·n)`), is harmless: independent of the normal's length -/
+theorem bary3d_raw_eq (x0 x1 x2 p : V3 ℝ) :
+    bary3dRaw x0 x1 x2 (bary3dPoint x0 x1 x2 p) = bary3dRaw x0 x1 x2 p := by
+  rw [bary3dPoint_eq, bary3dRaw_shift]
+
+theorem bary3d_sum {x0 x1 x2 p : V3 ℝ} {w : B3 ℝ} (h : bary3d x0 x1 x2 p = (St.ok, w)) :
+    w.b0 + w.b1 + w.b2 = 1 := by
+  unfold bary3d at h
+  simp only [] at h
+  split at h
+  · rename_i hg
+    simp only [Bool.and_eq_true] at hg
+    have ht := divisible_ne_zero hg.2
+    simp only [Prod.mk.injEq, true_and] at h
+    subst h
+    simp only [add_eq, div_eq] at ht ⊢
+    field_simp
+  · simp at h
+
+/-- `ref_node_bary3d` reproduces the ORTHOGONAL projection of the query point onto the triangle's plane -/
+theorem bary3d_reproduce {x0 x1 x2 p : V3 ℝ} {w : B3 ℝ} (h : bary3d x0 x1 x2 p = (St.ok, w)) :
+    vadd (vadd (vsmul w.b0 x0) (vsmul w.b1 x1)) (vsmul w.b2 x2) =
+      vadd p (vsmul (-(vdot (V3.sub p x0) (triNormal x0 x1 x2) /
+                       vdot (triNormal x0 x1 x2) (triNormal x0 x1 x2))) (triNormal x0 x1 x2)) := by
+  unfold bary3d at h
+  simp only [] at h
+  split at h
+  · rename_i hg
+    simp only [Bool.and_eq_true] at hg
+    have ht := divisible_ne_zero hg.2
+    simp only [Prod.mk.injEq, true_and] at h
+    subst h
+    rw [bary3d_raw_eq] at ht ⊢
+    simp only [add_eq, div_eq] at ht ⊢
+    have hT := bary3dRaw_total x0 x1 x2 p
+    rw [hT] at ht ⊢
+    obtain ⟨kx, ky, kz⟩ := bary3dRaw_mom x0 x1 x2 p
+    ext <;> simp only [vadd, vsmul]
+    · exact wsum3 _ _ _ _ _ _ _ _ ht (kx.trans (proj_aux _ _ _ _ ht))
+    · exact wsum3 _ _ _ _ _ _ _ _ ht (ky.trans (proj_aux _ _ _ _ ht))
+    · exact wsum3 _ _ _ _ _ _ _ _ ht (kz.trans (proj_aux _ _ _ _ ht))
+  · simp at h
+
+/-! ### edge length in the metric (geometric formula) -/
+
+/-- edge length in the metric is symmetric in its end points -/
+theorem ratio_symm (x0 x1 : V3 ℝ) (m0 m1 : M6 ℝ) :
+    ratioGeometric x0 x1 m0 m1 = ratioGeometric x1 x0 m1 m0 := by
+  unfold ratioGeometric
+  simp only []
+  rw [ratioDegenerate_sub_comm x1 x0, sqrtVtMv_sub_comm m0 x1 x0, sqrtVtMv_sub_comm m1 x1 x0]
+  generalize sqrtVtMv m0 (V3.sub x0 x1) = r0
+  generalize sqrtVtMv m1 (V3.sub x0 x1) = r1
+  simp only [cmin_eq, cmax_eq, min_comm r1 r0, max_comm r1 r0, Bool.or_comm (r1 <. eps12), add_eq,
+    add_comm r1 r0]
+
+/-- edge length scales linearly with metric size (`M ↦ s²M`), as long as the scaled and unscaled
+    end-point lengths stay on the same side of the C's `1.0e-12` cut-off (here: `s ≥ 1`, lengths ≥ 1e-12).
+    Full statement (all `s > 0`) is FALSE for the code as written: below the cut-off the C returns
+    `MIN(ratio0, ratio1)` instead of the logarithmic mean. -/
+theorem ratio_scale (s : ℝ) (hs : 1 ≤ s) (x0 x1 : V3 ℝ) (m0 m1 : M6 ℝ)
+    (h0 : (eps12 : ℝ) ≤ sqrtVtMv m0 (V3.sub x1 x0)) (h1 : (eps12 : ℝ) ≤ sqrtVtMv m1 (V3.sub x1 x0)) :
+    ratioGeometric x0 x1 (scaleM (s ^ 2) m0) (scaleM (s ^ 2) m1) = s * ratioGeometric x0 x1 m0 m1 := by
+  have hs0 : 0 ≤ s := by linarith
+  have hspos : 0 < s := by linarith
+  unfold ratioGeometric
+  simp only []
+  rw [sqrtVtMv_scale s hs0, sqrtVtMv_scale s hs0]
+  generalize sqrtVtMv m0 (V3.sub x1 x0) = r0 at h0 ⊢
+  generalize sqrtVtMv m1 (V3.sub x1 x0) = r1 at h1 ⊢
+  have he := eps12_pos
+  have hr0 : 0 < r0 := lt_of_lt_of_le he h0
+  have hr1 : 0 < r1 := lt_of_lt_of_le he h1
+  by_cases hd : ratioDegenerate (V3.sub x1 x0) = true
+  · simp only [hd, if_true, lit0_eq, mul_zero]
+  · simp only [hd]
+    have f0 : (r0 <. (eps12 : ℝ)) = false := (lt_false_iff _ _).mpr h0
+    have f1 : (r1 <. (eps12 : ℝ)) = false := (lt_false_iff _ _).mpr h1
+    have g0 : (s * r0 <. (eps12 : ℝ)) = false := (lt_false_iff _ _).mpr (by nlinarith)
+    have g1 : (s * r1 <. (eps12 : ℝ)) = false := (lt_false_iff _ _).mpr (by nlinarith)
+    simp only [f0, f1, g0, g1, Bool.or_false, Bool.false_eq_true, if_false, cmin_eq, cmax_eq,
+      ← mul_min_of_nonneg _ _ hs0, ← mul_max_of_nonneg _ _ hs0, div_eq, mul_eq, sub_eq, add_eq, log_eq,
+      lit1_eq, half_eq]
+    rw [mul_div_mul_left _ _ (ne_of_gt hspos)]
+    split
+    · ring
+    · ring
+
+/-- a zero-length edge has length zero in every metric (the `ref_math_divisible` guard) -/
+theorem ratio_same_point (x : V3 ℝ) (m0 m1 : M6 ℝ) : ratioGeometric x x m0 m1 = 0 := by
+  unfold ratioGeometric
+  have : ratioDegenerate (V3.sub x x) = true := by
+    simp only [ratioDegenerate, V3.sub, sub_eq, sub_self, Bool.or_eq_true, Bool.not_eq_true']
+    left; left
+    rw [Bool.eq_false_iff, ne_eq, divisible_iff']
+    simp only [dot, add_eq, mul_eq, mul_zero, add_zero, sqrt_eq, Real.sqrt_zero, abs_zero, lt_self_iff_false,
+      not_false_eq_true]
+  simp only [this, if_true, lit0_eq]
+
+/-- coordinate part of `ref_node_interpolate_edge`: the new node is the convex combination -/
+theorem interpolateEdge_eq (x0 x1 : V3 ℝ) (w : ℝ) :
+    interpolateEdgeXyz x0 x1 w = vadd (vsmul (1 - w) x0) (vsmul w x1) := by
+  simp only [interpolateEdgeXyz, vadd, vsmul, add_eq, sub_eq, mul_eq, lit1_eq]
+
+/-! ### non-vacuity: concrete states that satisfy the hypotheses above -/
+
+example : tetVol (⟨0, 0, 0⟩ : V3 ℝ) ⟨1, 0, 0⟩ ⟨0, 1, 0⟩ ⟨0, 0, 1⟩ = 1 / 6 := by
+  simp only [tetVol, add_eq, sub_eq, mul_eq, div_eq, neg_eq, ofInt_eq]; norm_num
+
+example : bary4 (⟨0, 0, 0⟩ : V3 ℝ) ⟨1, 0, 0⟩ ⟨0, 1, 0⟩ ⟨0, 0, 1⟩ ⟨1/4, 1/4, 1/4⟩ = (St.ok, ⟨1/4, 1/4, 1/4, 1/4⟩) := by
+  unfold bary4
+  simp only [tetDet, add_eq, sub_eq, mul_eq, div_eq]
+  norm_num [divisible_iff']
+
+/-- a point outside the tet: still reproduced, with a negative weight -/
+example : bary4 (⟨0, 0, 0⟩ : V3 ℝ) ⟨1, 0, 0⟩ ⟨0, 1, 0⟩ ⟨0, 0, 1⟩ ⟨2, 0, 0⟩ = (St.ok, ⟨-1, 2, 0, 0⟩) := by
+  unfold bary4
+  simp only [tetDet, add_eq, sub_eq, mul_eq, div_eq]
+  norm_num [divisible_iff']
+
+/-- the `div_zero` branch is reachable: a flat tet -/
+example : (bary4 (⟨0, 0, 0⟩ : V3 ℝ) ⟨1, 0, 0⟩ ⟨2, 0, 0⟩ ⟨3, 0, 0⟩ ⟨1, 1, 1⟩).1 = St.divZero := by
+  unfold bary4
+  simp only [tetDet, add_eq, sub_eq, mul_eq, div_eq]
+  norm_num [divisible_iff']
+
+example : bary3 (⟨0, 0, 0⟩ : V3 ℝ) ⟨1, 0, 0⟩ ⟨0, 1, 0⟩ ⟨1/4, 1/2, 7⟩ = (St.ok, ⟨1/4, 1/4, 1/2⟩) := by
+  unfold bary3
+  simp only [triNormal, cross, V3.sub, add_eq, sub_eq, mul_eq, div_eq]
+  norm_num [divisible_iff']
+
+example : bary3d (⟨0, 0, 0⟩ : V3 ℝ) ⟨2, 0, 0⟩ ⟨0, 2, 0⟩ ⟨1/2, 1, 7⟩ = (St.ok, ⟨1/4, 1/4, 1/2⟩) := by
+  unfold bary3d
+  simp only [bary3dRaw, bary3dPoint, dot, triNormal, cross, V3.sub, add_eq, sub_eq, mul_eq, div_eq]
+  norm_num [divisible_iff']
+
+/-- hypotheses of `sqrtVtMv_chain` / `ratio_scale`: identity metric, unit edge -/
+example : sqrtVtMv (⟨1, 0, 0, 1, 0, 1⟩ : M6 ℝ) (V3.sub ⟨1, 0, 0⟩ ⟨0, 0, 0⟩) = 1 := by
+  simp only [sqrtVtMv, vtMv, V3.sub, add_eq, sub_eq, mul_eq, sqrt_eq]; norm_num
+
+example : (eps12 : ℝ) ≤ 1 := by
+  simp only [eps12, ofDec_eq]; norm_num
+
+example : ratioGeometric (⟨0, 0, 0⟩ : V3 ℝ) ⟨1, 0, 0⟩ ⟨1, 0, 0, 1, 0, 1⟩ ⟨1, 0, 0, 1, 0, 1⟩ = 1 := by
+  unfold ratioGeometric ratioDegenerate
+  simp only [sqrtVtMv, vtMv, dot, V3.sub, add_eq, sub_eq, mul_eq, div_eq, sqrt_eq, lit0_eq, lit1_eq, half_eq,
+    cmin_eq, cmax_eq, cabs_eq]
+  have e : (eps12 : ℝ) = 1 * (10 : ℝ) ^ (-12 : ℤ) := by simp [eps12]
+  norm_num [divisible_iff', lt_iff, e]
+
+end Measures
 
 end Refine.Props.C15
